@@ -64,8 +64,11 @@ def gen_case(rng, pools):
         mode, ws = "scalar", [nc.gen_wavelength(rng, pools) if rng.random() < 0.7 else float(rng.randint(1, 12))]
     elif m < 0.55:
         mode, ws = "vector", [nc.gen_wavelength(rng, pools)]
-    else:
+    elif m < 0.88:
         mode, ws = "vector", [nc.gen_wavelength(rng, pools) for _ in range(rng.randint(2, 6))]
+    else:
+        # whole-number wavelengths (given as a list of ints or an integer array below)
+        mode, ws = "vector", [float(rng.randint(1, 12)) for _ in range(rng.randint(1, 5))]
     return dict(materials=mats, weights=weights, density=density, mode=mode, ws=ws)
 
 
@@ -97,6 +100,10 @@ def eval_real(pt, case):
         warg = kinds[zlib.crc32(repr(case["materials"]).encode()) % len(kinds)]
     else:
         warg = nc.reused_array(ws)   # one buffer per length, refilled in place
+        if all(float(w) == int(w) for w in ws):
+            import zlib
+            pick = zlib.crc32(repr(case["materials"]).encode()) % 3
+            warg = [warg, [int(w) for w in ws], np.array([int(w) for w in ws], dtype=np.int64)][pick]
     out = {}
     try:
         calc = nsf.neutron_composite_sld(ms, wavelength=warg)
